@@ -26,8 +26,13 @@ Matches(obs, spec) ==
 Answer(e) ==
   CASE e.a = "Ravel"  -> SpecRavel(G, cur, e.name)
     [] e.a = "URavel" -> SpecRavel([kinds |-> <<"u">>, dims |-> [u |-> e.dims], shape |-> [u |-> e.sizes]], cur, e.name)
-    [] e.a = "Wind"   -> SpecWind(G, cur, e.kind, e.pos)
-    [] e.a = "UWind"  -> SpecWind([kinds |-> <<"u">>, dims |-> [u |-> e.dims], shape |-> [u |-> e.sizes]], cur, "u", e.pos)
+    \* (the position of the linear dimension is read off the implementation's own previous result; once that has deviated
+    \* from the specification's state it may not fit the latter any more: the answer is then "diverged", never an evaluation error)
+    [] e.a = "Wind"   -> IF e.pos \in 1..Len(cur.dims) /\ cur.shape[e.pos] = ProdSeq(G.shape[e.kind])
+                         THEN SpecWind(G, cur, e.kind, e.pos) ELSE [err |-> "diverged"]
+    [] e.a = "UWind"  -> IF e.pos \in 1..Len(cur.dims) /\ cur.shape[e.pos] = ProdSeq(e.sizes)
+                         THEN SpecWind([kinds |-> <<"u">>, dims |-> [u |-> e.dims], shape |-> [u |-> e.sizes]], cur, "u", e.pos)
+                         ELSE [err |-> "diverged"]
     [] OTHER -> [err |-> "n/a"]
 
 ShapeOK(B, k, linB) ==
